@@ -67,6 +67,18 @@ VFromFloat(e) ==
          THEN "from_float:not_smallest"
   ELSE "ok"
 
+(* cover: the box reported for a shape whose true extent [xmin, xmax] x [ymin, ymax] is given in units of 2^-20 pixel (integers, rounded    *)
+(* down; |coordinates| < 1000 pixels): pixel ix spans [ix - 1/2, ix + 1/2], the box covers the extent and is the smallest that does.        *)
+(* Extremes within 2 units of a pixel edge are not decided (the harness computes them in floating point).                                  *)
+VCover(e) ==
+  LET f == e.flt  r == e.res  H == 524288 IN
+  IF ~IsBox(r) THEN "cover:not_a_box"
+  ELSE IF ~((2 * r[1] - 1) * H <= f[1] + 2 /\ (2 * r[2] - 1) * H >= f[2] - 2 /\ (2 * r[3] - 1) * H <= f[3] + 2 /\ (2 * r[4] - 1) * H >= f[4] - 2)
+         THEN "cover:does_not_cover"
+  ELSE IF ~((2 * r[1] + 1) * H > f[1] - 2 /\ (2 * r[2] - 3) * H < f[2] + 2 /\ (2 * r[3] + 1) * H > f[3] - 2 /\ (2 * r[4] - 3) * H < f[4] + 2)
+         THEN "cover:not_smallest"
+  ELSE "ok"
+
 Verdict(e) ==
   CASE e.op = "union" -> VUnion(e)
     [] e.op = "intersection" -> VInter(e)
@@ -75,6 +87,7 @@ Verdict(e) ==
     [] e.op = "extent" -> VExtent(e)
     [] e.op = "slices" -> VSlices(e)
     [] e.op = "from_float" -> VFromFloat(e)
+    [] e.op = "cover" -> VCover(e)
     [] OTHER -> "unknown_op"
 
 =============================================================================
